@@ -67,6 +67,10 @@ func newResolver(P *Program, db *SpecDB) *Resolver {
 			r.wild = append(r.wild, wildSpec{strings.TrimSuffix(q, "*"), fs})
 			continue
 		}
+		if prev, dup := r.byName[q]; dup && prev != fs {
+			fmt.Fprintf(os.Stderr, "vcheck: two contracts for %s (%s and %s)\n", q, prev.PkgPath, fs.PkgPath)
+			os.Exit(2)
+		}
 		r.byName[q] = fs
 	}
 	sort.Slice(r.wild, func(i, j int) bool { return len(r.wild[i].prefix) > len(r.wild[j].prefix) })
@@ -1730,6 +1734,9 @@ func (f *FnEnc) runDefers() {
 	for i := len(f.deferred) - 1; i >= 0; i-- {
 		dc := f.deferred[i]
 		if !dc.instr.Block().Dominates(f.blk) {
+			if !cfgReaches(dc.instr.Block(), f.blk) {
+				continue // this return lies before the defer statement: nothing was registered
+			}
 			f.setTaint("defer does not dominate return")
 			continue
 		}
